@@ -135,17 +135,8 @@ Proof.
       * rewrite E in HB. inversion HB; subst. split; [assumption|split; [assumption|reflexivity]].
   - destruct (lists_step d now nowms n args hint r d' W Hok NB H) as (c & RC & A & U).
     split; [eapply lupd_wf; eassumption|]. split; [eapply lupd_ok; eassumption|].
-    destruct c as [| r0 | k f | src dst fl tl | lf keys t]; cbn [accepts] in A.
+    destruct c as [| k f | src dst fl tl | lf keys t]; cbn [accepts] in A.
     + destruct A as [-> _]. reflexivity.
-    + (* count 0 *)
-      destruct A as [[->| ->] _]; [reflexivity|].
-      unfold ref_clause, int_arg in RC.
-      repeat match type of RC with
-             | context [if ?c then _ else _] => destruct c
-             end; try discriminate;
-      repeat match type of RC with
-             | context [match ?x with _ => _ end] => destruct x; try discriminate
-             end; inversion RC; reflexivity.
     + destruct (as_list (raw_view d k)).
       * destruct A as (-> & _). apply (ref_clause_good n args k f RC).
       * destruct A as [-> _]. reflexivity.
@@ -272,8 +263,7 @@ Definition clause_keys (c : clause) : list bytes :=
 (* frame: a key the command does not name keeps its value and its deadline *)
 Lemma accepts_frame c a b r : accepts c a b r -> same_except (clause_keys c) a b.
 Proof.
-  destruct c as [| r0 | k f | src dst fl tl | lf keys t]; cbn [accepts clause_keys]; intros A k0 N.
-  - apply A.
+  destruct c as [| k f | src dst fl tl | lf keys t]; cbn [accepts clause_keys]; intros A k0 N.
   - apply A.
   - destruct (as_list (a k)); [apply A; exact N|apply A].
   - destruct (as_list (a src)) as [ls|]; [|apply A].
@@ -286,8 +276,7 @@ Qed.
 Lemma accepts_wrongtype n args c a b :
   ref_clause n args = Some c -> accepts c a b err_wrongtype -> unchanged a b.
 Proof.
-  intros RC A. destruct c as [| r0 | k f | src dst fl tl | lf keys t]; cbn [accepts] in A.
-  - apply A.
+  intros RC A. destruct c as [| k f | src dst fl tl | lf keys t]; cbn [accepts] in A.
   - apply A.
   - destruct (as_list (a k)) as [l|]; [|apply A].
     destruct A as (E & _). destruct (ref_clause_good n args k f RC l) as [_ NW]. congruence.
@@ -297,26 +286,25 @@ Proof.
   - contradiction.
 Qed.
 
-(* the clauses determine the reply (up to the one documented latitude) and the resulting view *)
+(* the clauses determine the reply and the resulting view *)
 Lemma accepts_deterministic c a b1 b2 r1 r2 :
   accepts c a b1 r1 -> accepts c a b2 r2 ->
-  (forall k, b1 k = b2 k) /\ (r1 = r2 \/ exists r0, c = CErrOr r0).
+  (forall k, b1 k = b2 k) /\ r1 = r2.
 Proof.
-  destruct c as [| r0 | k f | src dst fl tl | lf keys t]; cbn [accepts]; intros A1 A2.
-  - destruct A1 as [-> U1], A2 as [-> U2]. split; [intros k; rewrite U1, U2; reflexivity|left; reflexivity].
-  - destruct A1 as [_ U1], A2 as [_ U2]. split; [intros k; rewrite U1, U2; reflexivity|right; eauto].
+  destruct c as [| k f | src dst fl tl | lf keys t]; cbn [accepts]; intros A1 A2.
+  - destruct A1 as [-> U1], A2 as [-> U2]. split; [intros k; rewrite U1, U2; reflexivity|reflexivity].
   - destruct (as_list (a k)) as [l|].
-    + destruct A1 as (-> & K1 & S1), A2 as (-> & K2 & S2). split; [|left; reflexivity].
+    + destruct A1 as (-> & K1 & S1), A2 as (-> & K2 & S2). split; [|reflexivity].
       intros k0. destruct (bytes_eq_dec k0 k) as [->|N]; [congruence|].
       rewrite S1, S2; [reflexivity|intros [E|[]]; congruence..].
-    + destruct A1 as [-> U1], A2 as [-> U2]. split; [intros k0; rewrite U1, U2; reflexivity|left; reflexivity].
+    + destruct A1 as [-> U1], A2 as [-> U2]. split; [intros k0; rewrite U1, U2; reflexivity|reflexivity].
   - destruct (as_list (a src)) as [ls|].
-    2:{ destruct A1 as [-> U1], A2 as [-> U2]. split; [intros k0; rewrite U1, U2; reflexivity|left; reflexivity]. }
+    2:{ destruct A1 as [-> U1], A2 as [-> U2]. split; [intros k0; rewrite U1, U2; reflexivity|reflexivity]. }
     destruct (take_end fl ls) as [[x ls']|].
-    2:{ destruct A1 as [-> U1], A2 as [-> U2]. split; [intros k0; rewrite U1, U2; reflexivity|left; reflexivity]. }
+    2:{ destruct A1 as [-> U1], A2 as [-> U2]. split; [intros k0; rewrite U1, U2; reflexivity|reflexivity]. }
     destruct (as_list (a dst)) as [ld|].
-    2:{ destruct A1 as [-> U1], A2 as [-> U2]. split; [intros k0; rewrite U1, U2; reflexivity|left; reflexivity]. }
-    destruct A1 as (-> & S1 & K1), A2 as (-> & S2 & K2). split; [|left; reflexivity].
+    2:{ destruct A1 as [-> U1], A2 as [-> U2]. split; [intros k0; rewrite U1, U2; reflexivity|reflexivity]. }
+    destruct A1 as (-> & S1 & K1), A2 as (-> & S2 & K2). split; [|reflexivity].
     intros k0. destruct (bytes_eqb_spec src dst) as [E|N].
     + subst dst. destruct (bytes_eq_dec k0 src) as [->|N0]; [congruence|].
       rewrite S1, S2; [reflexivity|intros [E|[E|[]]]; congruence..].
@@ -330,9 +318,8 @@ Qed.
 Lemma accepts_ext c a a' b b' r :
   (forall k, a k = a' k) -> (forall k, b k = b' k) -> accepts c a b r -> accepts c a' b' r.
 Proof.
-  intros Ea Eb. destruct c as [| r0 | k f | src dst fl tl | lf keys t]; cbn [accepts].
+  intros Ea Eb. destruct c as [| k f | src dst fl tl | lf keys t]; cbn [accepts].
   - intros [-> U]. split; [reflexivity|]. intros k. rewrite <- Ea, <- Eb. apply U.
-  - intros [R U]. split; [exact R|]. intros k. rewrite <- Ea, <- Eb. apply U.
   - rewrite <- Ea. destruct (as_list (a k)).
     + intros (-> & K & Sx). split; [reflexivity|]. split; [rewrite <- Eb; exact K|].
       intros k0 N. rewrite <- Ea, <- Eb. apply Sx. exact N.
